@@ -335,8 +335,10 @@ func (pb prefixDBBatch) GetByteSize() (int, error) {
 	return pb.source.GetByteSize()
 }
 
-// Returns a slice of the same length (big endian)
-// except incremented by one.
+// Returns the smallest byte string that is greater than every key with the
+// prefix bz: trailing 0xFF bytes are dropped and the last remaining byte is
+// incremented (a same-length increment such as 01FFFF -> 020000 would leave the
+// foreign keys 02 and 0200 inside the range).
 // Returns nil on overflow (e.g. if bz bytes are all 0xFF)
 // CONTRACT: len(bz) > 0
 func cpIncr(bz []byte) (ret []byte) {
@@ -347,13 +349,9 @@ func cpIncr(bz []byte) (ret []byte) {
 	for i := len(bz) - 1; i >= 0; i-- {
 		if ret[i] < byte(0xFF) {
 			ret[i]++
-			return
-		}
-		ret[i] = byte(0x00)
-		if i == 0 {
-			// Overflow
-			return nil
+			return ret[:i+1]
 		}
 	}
+	// Overflow
 	return nil
 }
